@@ -879,5 +879,28 @@ func TestVfC03Boundary(t *testing.T) {
 			}
 		}
 	}
+	// [string] length boundary: 65535 bytes is the longest [string]; one byte more cannot be said
+	for _, n := range []int{65535, 65536} {
+		long := make([]int, n)
+		for i := range long {
+			long[i] = 'a' + i%26
+		}
+		for _, site := range []string{"value-name", "payload-key", "keyspace", "startup-value"} {
+			id++
+			c := &vfC03Case{ID: id, Src: "boundary", V: 4, Stream: 2, Cons: 1, Kind: "QUERY", Stmt: vfC03I([]byte("q"))}
+			switch site {
+			case "value-name":
+				c.Values = []vfC03Value{{K: "val", B: []int{1}, Named: 1, Name: long}}
+			case "payload-key":
+				c.Payload = []vfC03BKV{{K: long, V: vfC03NB{B: []int{1}}}}
+			case "keyspace":
+				c.V, c.Ks = 5, long
+			case "startup-value":
+				c.Kind, c.Stmt, c.Cons = "STARTUP", nil, 0
+				c.Smap = []vfC03SKV{{K: vfC03I([]byte("CQL_VERSION")), V: long}}
+			}
+			vfC03Run(t, o, c)
+		}
+	}
 	fmt.Printf("VFC03 boundary=%d\n", o.n)
 }
